@@ -113,6 +113,58 @@ def run(payload):
                 if abs(tf - (t0 + T)) > 1e-12 * max(1, abs(t0 + T)) or err > steps * tol * 1.0001 + 1e-12:
                     fails.append({"id": f"adaptive.{solver}.{backend}", "a": a, "tolerance": tol, "T": T, "t0": t0, "t_final": tf, "steps": steps, "global_error": err, "bound": steps * tol})
                 results[(backend, rep)] = (res.data, a, tol, T, steps)
+    # ---- adaptive stepping on a non-autonomous problem du/dt = a u + b t (stage times matter) and the times at
+    #      which the embedded Runge-Kutta-Fehlberg pair evaluates the right-hand side
+    class Recording(PDEBase):
+        def __init__(self):
+            super().__init__()
+            self.times = []
+
+        def evolution_rate(self, state, t=0):
+            self.times.append(float(t))
+            return ScalarField(state.grid, 4 * t**3 - 3 * t**2 + 2)
+
+    from pde.solvers import RungeKuttaSolver
+    nodes = np.array([0, 1 / 4, 3 / 8, 12 / 13, 1, 1 / 2])
+    for t0, h in ((0.0, 0.5), (1.5, 0.25)):
+        eq = Recording()
+        state = ScalarField(grid, [1.0, -3.0, 0.5])
+        u_start = state.data.copy()
+        stepper = RungeKuttaSolver(eq, backend="numpy", adaptive=True, tolerance=1e-6).make_stepper(state, dt=h)
+        eq.times.clear()
+        cases += 1
+        try:
+            t_end = stepper(state, t0, t0 + h)
+        except Exception as e:
+            fails.append({"id": "adaptive.rkf45_stage_times", "error": f"{type(e).__name__}: {e}"})
+            continue
+        prim = lambda t: t**4 - t**3 + 2 * t
+        if len(eq.times) < 6 or not np.allclose(eq.times[:6], t0 + nodes * h, rtol=0, atol=1e-12):
+            fails.append({"id": "adaptive.rkf45_stage_times", "t0": t0, "dt": h, "got": eq.times[:6], "want": (t0 + nodes * h).tolist()})
+        elif not np.allclose(state.data - u_start, prim(t_end) - prim(t0), rtol=0, atol=1e-10):
+            fails.append({"id": "adaptive.rkf45_cubic_quadrature_not_exact", "t0": t0, "dt": h, "got": (state.data - u_start).tolist(), "want": float(prim(t_end) - prim(t0))})
+    for solver in ["euler", "runge-kutta"]:
+        for backend in ["numpy", "numba"]:
+            a = float(rng.uniform(-2.0, -0.5))
+            b = float(rng.uniform(0.5, 2.0))
+            tol = 1e-4
+            T = float(rng.choice([0.8, 2.0]))
+            t0 = float(rng.choice([0.0, 1.0]))
+            u0 = rng.uniform(0.5, 2, 3)
+            cases += 1
+            try:
+                res, info = Lin(a, b).solve(ScalarField(grid, u0), t_range=(t0, t0 + T), dt=1e-3, solver=solver, backend=backend, tracker=None,
+                                            ret_info=True, adaptive=True, tolerance=tol)
+            except Exception as e:
+                fails.append({"id": f"adaptive_nonautonomous.{solver}.{backend}", "error": f"{type(e).__name__}: {e}"})
+                continue
+            part = lambda t: -b * t / a - b / a**2
+            exact = (u0 - part(t0)) * np.exp(a * T) + part(t0 + T)
+            steps = info["solver"]["steps"]
+            err = float(np.max(np.abs(res.data - exact)))
+            # the estimators are asymptotically exact only: factor 2 of slack on the bound (accepted steps x tolerance)
+            if err > 2 * steps * tol + 1e-12:
+                fails.append({"id": f"adaptive_nonautonomous.{solver}.{backend}", "a": a, "b": b, "tolerance": tol, "T": T, "t0": t0, "steps": steps, "global_error": err, "bound": 2 * steps * tol})
     return {"ok": True, "cases": cases, "failures": fails}
 
 
